@@ -71,6 +71,19 @@ def system_case(draw):
             "x": draw(G.magnitudes()), "k": None}
 
 
+@st.composite
+def rebase_mix_case(draw):
+    """two units whose dimensions are different powers of the same base dimensions (l*m, J*N, Hz*min2): rebase() may
+    only merge units of the SAME dimension"""
+    a, b = draw(st.sampled_from([(("", "l"), ("", "m")), (("", "J"), ("", "N")), (("", "Hz"), ("", "min")), (("", "ar"), ("k", "m")),
+                                 (("m", "l"), ("c", "m")), (("", "W"), ("", "J")), (("", "Pa"), ("", "N")), (("", "l"), ("", "ar"))]))
+    ea, eb = draw(st.sampled_from([(1, 1), (1, -1), (1, 2), (2, 1), (-1, 2)]))
+    u = [draw(st.sampled_from(["*", "*", "/"])), G.atom(a[0], a[1], ea, 1), G.atom(b[0], b[1], eb, 1)]
+    if draw(st.booleans()):
+        u = ["*", u, G.atom(a[0], a[1], 1, 1)]          # ... next to a second unit of the first dimension (which does merge)
+    return {"kind": "convert", "u": u, "v": u, "w": u, "x": draw(G.magnitudes()), "k": None}
+
+
 RECIP_DIMS = [d for d in G.NONZERO_DIMS]
 
 
@@ -199,6 +212,7 @@ def strategies(tier):
         "rankine": (rankine_case(), 200, 4000),
         "convert": (convert_case(), 2500, 60000),
         "system": (system_case(), 400, 8000),
+        "rebase_mix": (rebase_mix_case(), 150, 2500),
         "recip": (recip_case(), 600, 15000),
         "rad": (rad_case(), 150, 2000),
         "refuse": (refuse_case(), 1000, 25000),
@@ -282,6 +296,23 @@ def check_convert(case, v):
     via = Quantity(x, tu).to(tw).to(tv)
     if not _close(via.value(), exp):
         return v.fail("via", f"Quantity({x!r},{tu!r}).to({tw!r}).to({tv!r}) = {via.value()!r}, direct {exp!r}")
+    # rebase() re-expresses units of one dimension in the first of them (cm*m -> cm2): a conversion like any other - the
+    # value in base units and the dimension stay what they were
+    try:
+        rb = Quantity(x, tu)
+        d0, f0, v0 = R.dim_of_expression(rb.units()), R.factor_of_expression(rb.units()), _arr(rb.value())
+    except Exception:
+        rb = None
+    if rb is not None and rb.units():
+        try:
+            rb.rebase()
+            d1, f1 = R.dim_of_expression(rb.units() or ""), R.factor_of_expression(rb.units() or "")
+        except Exception as e:
+            return v.fail("rebase", f"Quantity({x!r},{tu!r}).rebase() raised {e!r}")
+        if d1 != d0 or not _close(_arr(rb.value()) * f1, v0 * f0):
+            return v.fail("rebase", f"Quantity({x!r},{tu!r}).rebase() = {rb.value()!r} {rb.units()}: dimension "
+                                    f"{[str(c) for c in d1]} (was {[str(c) for c in d0]}), base value {_arr(rb.value()) * f1!r} (was {v0 * f0!r})")
+        v.label("rebase_checked")
     k = case.get("k")
     if k:
         gq = Quantity(x, tu).to(Quantity(k, tv))
